@@ -231,4 +231,60 @@ example : dictGet? ([⟨0, false⟩, ⟨1, false⟩, ⟨2, false⟩].foldl (fun 
     = some [⟨0, false⟩, ⟨1, false⟩, ⟨2, false⟩] := by
   rw [subscribe_many]; rfl
 
+/-! ### nested-change subscribers -/
+
+/-- the keys of the nested table that match a full path hash (`key in hash`: substring), in table order -/
+def nestedHits (reg : Registry) (full : String) : List (String × List Sub) :=
+  reg.nested.filter (fun kv => (full.splitOn kv.1).length > 1)
+
+/-- fan-out over several keys: with callbacks that do not raise, every subscriber of every
+matching key is invoked exactly once, keys in table order, subscribers in registration order -/
+theorem nested_runAll_all (e : Entity) (obj : Val) (path : String) (hs : List (String × List Sub))
+    (h : ∀ kv ∈ hs, ∀ s ∈ kv.2, s.raises = false) :
+    applyNested.runAll e obj path hs =
+      (hs.flatMap (fun kv => kv.2.map (fun s => LogEntry.nested kv.1 s.tag e.id path obj)), false) := by
+  induction hs with
+  | nil => rfl
+  | cons kv rest ih =>
+    obtain ⟨k, subs⟩ := kv
+    unfold applyNested.runAll
+    rw [runSubs_all subs _ (h (k, subs) (List.mem_cons_self ..))]
+    simp only [Bool.false_eq_true, if_false]
+    rw [ih (fun x hx => h x (List.mem_cons_of_mem _ hx))]
+    simp [List.flatMap_cons]
+
+/-- **Nested-change subscribers are called exactly once per matching key.** Whenever a nested
+update succeeds and hands a container to the subscribers (`out.notify = some obj`), the log
+of the call is the fan-out over the matching keys with the dotted path and that container as
+arguments; when it hands nothing (element cleared, pure slice delete) nobody is called. -/
+theorem dispatch_nested (reg : Registry) (e e' : Entity) (sl : Bool) (payload : Bytes) (l : List LogEntry) (raised : Bool)
+    (h : applyNested reg e sl payload = .ok (e', l, raised))
+    (hnr : ∀ kv ∈ reg.nested, ∀ s ∈ kv.2, s.raises = false) :
+    raised = false ∧
+    (l = [] ∨ ∃ path obj, l = (nestedHits reg (e.view.name ++ "_" ++ path)).flatMap
+        (fun kv => kv.2.map (fun s => LogEntry.nested kv.1 s.tag e.id path obj))) := by
+  unfold applyNested at h
+  simp only at h
+  split at h
+  · cases h
+  · split at h
+    · cases h
+    · split at h
+      · cases h
+      · split at h
+        · cases h
+        · split at h
+          · cases h
+          · split at h
+            · cases h
+            · split at h
+              · simp only [Except.ok.injEq, Prod.mk.injEq] at h
+                obtain ⟨_, rfl, rfl⟩ := h
+                exact ⟨rfl, Or.inl rfl⟩
+              · simp only [Except.ok.injEq, Prod.mk.injEq] at h
+                obtain ⟨_, hl, hr⟩ := h
+                rw [nested_runAll_all _ _ _ _ (fun kv hkv => hnr kv (List.mem_filter.mp hkv).1)] at hl hr
+                exact ⟨hr.symm, Or.inr ⟨_, _, hl.symm⟩⟩
+
+
 end ReplayModel.C07
